@@ -113,6 +113,27 @@ def slotStep (k : SlotKind) (l : List α) : SOp α → SOut α
       | none => SOut.err l
       | some (l', x) => ⟨l', [⟨.remove, [x], []⟩], false⟩
 
+/-- what leaves a list-like slot in one call: nothing said for nothing, REMOVE for one element, REMOVE_MANY otherwise -/
+def removedNotifs (xs : List α) : List (Notif α) :=
+  match xs with
+  | [] => []
+  | [x] => [⟨.remove, [x], []⟩]
+  | _ => [⟨.removeMany, xs, []⟩]
+
+/-- … and what comes in: nothing, ADD, ADD_MANY -/
+def addedNotifs (xs : List α) : List (Notif α) :=
+  match xs with
+  | [] => []
+  | [x] => [⟨.add, [], [x]⟩]
+  | _ => [⟨.addMany, [], xs⟩]
+
+/-- `l[a:b] = ys` on a list-like slot (`EList.__setitem__` with a slice; `del l[a:b]` is `ys = []`), for slice bounds
+    `0 ≤ a`, `0 ≤ b` as Python clamps them -/
+def sliceStep (l : List α) (a b : Nat) (ys : List α) : SOut α :=
+  let a' := min a l.length
+  let b' := max a' (min b l.length)
+  ⟨l.take a' ++ ys ++ l.drop b', removedNotifs ((l.drop a').take (b' - a')) ++ addedNotifs ys, false⟩
+
 def SlotKind.unique : SlotKind → Bool | .set => true | _ => false
 
 /-- run a history on a slot, collecting every notification -/
